@@ -22,11 +22,22 @@ def gen_inputs(ctx):
             n = rng.choice([0, 1, 2, 3])
             out.append(("Paranoia", dict(src, net=net, account=acct, start=B(st.to_bytes(5, 'big')), end=B((st + n).to_bytes(5, 'big'))), ("paranoia", net, n, "seed" in src,
                                                                                                 core.untext(src["password"]) != "")))
+    # the same requests through the command line (--paranoia, to stdout and to --file), incl. empty intervals
+    for src in sources[:4] + [s_ for s_ in sources if "seed" in s_ and len(s_["seed"]) == 64][:2]:
+        for via in ("cli", "cli-file"):
+            for st, n in ((0, 2), (4, 0), (7, 1)) if not q else ((rng.choice([0, 7]), rng.choice([1, 2])), (4, 0)):
+                net = rng.choice(["main", "test"])
+                out.append(("Paranoia", dict(src, net=net, account=rng.choice([0, 1, 5]), start=B(st.to_bytes(5, 'big')),
+                                             end=B((st + n).to_bytes(5, 'big')), via=via), ("paranoia-" + via, net, n)))
     return out
 
 
 def describe(ev):
     i = ev["inp"]
+    if i.get("via", "api") != "api":
+        return "python -m btc_hd_wallet --paranoia%s (%s wallet, account %d, interval (%d, %d))" % (
+            " --file out.json" if i["via"] == "cli-file" else "", i["net"], i["account"],
+            int.from_bytes(bytes(i["start"]), "big"), int.from_bytes(bytes(i["end"]), "big"))
     return "paranoia_mode(%s wallet.generate(%d, (%d, %d)))" % (i["net"], i["account"], int.from_bytes(bytes(i["start"]), "big"), int.from_bytes(bytes(i["end"]), "big"))
 
 
@@ -64,7 +75,8 @@ def run(ctx):
              "identical with identical pointers; distinct = (network, rows, source, passphrase present, outcome)",
         assumptions=["empty-string secrets (empty passphrase) are exempt; the substring test applies to secrets of 8+ characters "
                      "(a passphrase that is literally part of a public string, e.g. 'm/44', necessarily 'occurs' in any output)",
-                     "the CLI path (--paranoia) is covered by C20, which reuses this verdict"],
+                     "the command-line route (--paranoia to stdout and to --file) is judged by the same clauses here; C20 covers its "
+                     "argument handling"],
         trusted_base=["TLC/SANY", "spec/PaperWallet.tla, Base58.tla, ExtKey.tla, Address.tla", "hashlib"],
         checker_cmd="./check C15 --tier " + ctx.tier)
 
